@@ -63,3 +63,14 @@ Definition opts_remove (l keys : list str) : list str :=
   filter (fun x => negb (existsb (fun k => has_key k x) keys)) l.
 Definition opts_set (l : list str) (kvs : list (str * str)) : list str :=
   opts_remove l (map fst kvs) ++ map (fun kv => opt_entry (fst kv) (snd kv)) kvs.
+
+(* ---- Rewriter.get_relto, rewriter.py:650-662: the directory the strings of a node are relative to.
+   all_paths = the data-flow paths from the node to the target call; with more than one path the node
+   is not used; otherwise it is the directory of the build file of the FIRST function call on the
+   path - a files() call if the strings pass through one, else the target call itself (the last node). *)
+Record pnode := mkPN { pn_func : bool; pn_dir : str }.
+Definition relto (paths : list (list pnode)) : option str :=
+  match paths with
+  | [p] => match find pn_func p with Some n => Some (pn_dir n) | None => None end
+  | _ => None
+  end.
